@@ -23,6 +23,9 @@ numeric = Union[int, float]
 
 TACTICS_ORDER = [1, 2, 3, 4, 5]  # noqa: WPS407
 
+# Numerical tolerance granted to an LP optimum when it is compared against the bound of a constraint
+REFINEMENT_TOLERANCE = 1e-6  # noqa: WPS407
+
 
 class PolyhedralTerm(Term):
     """Polyhedral terms are linear inequalities over a list of variables."""
@@ -1116,7 +1119,7 @@ class PolyhedralTermList(TermList):  # noqa: WPS338
                 is_refinement = False
                 break
             else:
-                if -res["fun"] <= b_temp:  # noqa: WPS309
+                if -res["fun"] <= b_temp + REFINEMENT_TOLERANCE * (1 + abs(b_temp)):  # noqa: WPS309
                     logging.debug("Redundant constraint")
                 else:
                     is_refinement = False
